@@ -197,6 +197,7 @@ def run_path(contract, I, decisions, model=None):
     S = sp.Spec(ctx, I, model=model)
     a = contract.inputs(S)
     I.loop_specs = dict(contract.loops)  # inputs() may build loop contracts / summaries over its symbols
+    I.loop_renames = dict(getattr(contract, "loop_renames", None) or {})
     I.summaries = dict(contract.summaries)
     contract.setup(I, S, a)
     pre = None
